@@ -42,6 +42,7 @@ import uuid
 
 from hypothesis import strategies as st
 
+PATTERN_FLAGS = False  # set by C13 in its worker processes (see scalar_values)
 SCALARS = ["int", "bool", "float", "str", "Decimal", "Fraction", "UUID", "PurePosixPath", "PureWindowsPath",
            "Path", "Pattern", "date", "datetime", "time", "timedelta"]
 SCALAR_EXPR = {
@@ -569,7 +570,14 @@ def scalar_values(t: str, *, json64: bool = False):
         root = st.sampled_from(["", "/"] if t != "PureWindowsPath" else ["", "C:/", "/", "//srv/share/"])
         return st.builds(lambda r, segs: cls(r + "/".join(segs)) if (r or segs) else cls("."), root, st.lists(seg, max_size=4))
     if t == "Pattern":
-        return st.sampled_from(["a+", r"^\d+$", "[a-z]*", "(x|y)", "", "1", "null", r"\w+", "[1]", "a{2,3}", r"\[1\]", "true"]).map(re.compile)
+        plain = st.sampled_from(["a+", r"^\d+$", "[a-z]*", "(x|y)", "", "1", "null", r"\w+", "[1]", "a{2,3}", r"\[1\]", "true"]).map(re.compile)
+        if PATTERN_FLAGS:
+            # compile flags are not part of the wire form (so not of U's round-trip values); as *inputs that are already
+            # valid* (C13) compiled patterns come with any flags
+            flagged = st.builds(re.compile, st.sampled_from(["ab", "^x$", "a.b", "[a-z]+"]),
+                                st.sampled_from([re.I, re.M | re.S, re.X, re.A, re.I | re.M]))
+            return st.one_of(plain, flagged)
+        return plain
     if t == "date":
         return st.one_of(st.dates(), st.sampled_from([datetime.date.min, datetime.date.max, datetime.date(1970, 1, 1), datetime.date(999, 12, 31), datetime.date(2000, 2, 29)]))
     if t == "datetime":
